@@ -102,7 +102,7 @@ func c20AttSeq(b *fw.B, seqNo int) {
 	roots := []common.Root{{1}, {2}, {3}}
 	mkData := func(epoch common.Epoch, comm int, rootI int) phase0.AttestationData {
 		return phase0.AttestationData{
-			Slot:            common.Slot(uint64(epoch)*uint64(spec.SLOTS_PER_EPOCH) + uint64(comm)),
+			Slot:            common.Slot(uint64(epoch)*uint64(spec.SLOTS_PER_EPOCH) + uint64(comm)/2), // committees 2k and 2k+1 share a slot
 			Index:           common.CommitteeIndex(comm % 2),
 			BeaconBlockRoot: roots[rootI],
 			Source:          common.Checkpoint{Epoch: epoch.Previous(), Root: common.Root{9}},
